@@ -179,6 +179,7 @@ type fnCtx struct {
 type retSite struct {
 	st   *State
 	vals []Val
+	pos  token.Pos
 }
 
 type loopInfo struct {
@@ -1173,7 +1174,7 @@ func (fc *fnCtx) execBlock(b *ssa.BasicBlock, st *State, in map[*ssa.BasicBlock]
 			for _, r := range x.Results {
 				vs = append(vs, fc.get(st, r))
 			}
-			fc.returns = append(fc.returns, retSite{st.clone(), vs})
+			fc.returns = append(fc.returns, retSite{st.clone(), vs, x.Pos()})
 			return
 		case *ssa.Panic:
 			fc.oblige(st, "panic", "", "false", "explicit panic reachable", x.Pos(), false)
